@@ -401,17 +401,15 @@ pub fn snapshot_keys(dbs: &Arc<Databases>) {
     if !dbs.is_oplog_valid.load(Ordering::Relaxed) {
         #[cfg(feature = "verif")]
         crate::verif::yield_point("snapshot_keys.keys.read");
-        let keys_map = {
-            let keys_map = dbs.keys_map.read().unwrap();
-            keys_map.clone()
-        };
+        // The read lock is held until the log is marked valid: the replication thread registers a
+        // new key (and invalidates the flag) under the write lock, so no key can be registered
+        // between the copy written here and the flag that says the file covers the log.
+        let keys_map_guard = dbs.keys_map.read().unwrap();
+        let keys_map = keys_map_guard.clone();
         log::debug!("Will snapshot the keys {}", keys_map.len());
-        #[cfg(feature = "verif")]
-        crate::verif::yield_point("snapshot_keys.before_write");
         write_keys_map_to_disk(keys_map);
-        #[cfg(feature = "verif")]
-        crate::verif::yield_point("snapshot_keys.before_mark_valid");
         mark_op_log_as_valid(dbs).unwrap();
+        drop(keys_map_guard);
     } else {
         log::debug!("keys already save, not saving keys file! Metadata already saved!")
     }
